@@ -261,9 +261,13 @@ Definition append_options (opts : list (N * bytes)) (order : list N) : list (N *
 
 Definition lease_time_opt : N * bytes := (51, ipb (Z.to_N lease_secs)).
 
-(* ProcessPacket: destination of the reply *)
+(* ProcessPacket: destination of the reply.  The code tests
+   frame.SrcAddr.IP == IPv4zero || dhcpFrame.Broadcast(), but by then the reply has
+   been encoded INTO the request buffer (EncodeDHCP4(p, ...) does SetFlags(0)), so
+   dhcpFrame.Broadcast() reads the reply's flags: always false.  The client's
+   broadcast flag [m_bflag] therefore never influences the destination. *)
 Definition reply_dst (m : dmsg) : mac * ip :=
-  if (m_src m =? 0) || m_bflag m then (mac_bcast, ip_bcast) else (m_chaddr m, m_src m).
+  if (m_src m =? 0) || false then (mac_bcast, ip_bcast) else (m_chaddr m, m_src m).
 
 Definition mk_reply (c : cfg) (t : rtype) (m : dmsg) (yi : ip) (b : bool) : reply :=
   let tcode := match t with ROffer => 2 | RAck => 5 | RNak => 6 end in
@@ -297,15 +301,19 @@ Definition avail_req (ch : ip -> nat) (s : dstate) (k : cid) (x : ip) : bool :=
 Definition scan (ch : ip -> nat) (s : dstate) (from bc : ip) : option ip :=
   find (avail ch s) (map (fun k => from + N.of_nat k) (seq 0 (N.to_nat (bc - from)))).
 
+(* allocIPOffer, first phase: the requested address is taken when no lease of another
+   client id holds it as acknowledged address (findByIP) and the session does not track it *)
+Definition phase1 (ch : ip -> nat) (s : dstate) (l : lease) (req : option ip) : option ip :=
+  match req with
+  | Some r => if avail_req ch s (l_cid l) r then Some r else None
+  | None => None
+  end.
+
 (* allocIPOffer: the offer (None = "exhausted all ips") and the state with the cursor moved *)
 Definition allocIPOffer (c : cfg) (ch : ip -> nat) (s : dstate) (l : lease) (req : option ip)
   : option ip * dstate :=
   let b := l_net2 l in
-  let phase1 := match req with
-                | Some r => if avail_req ch s (l_cid l) r then Some r else None
-                | None => None
-                end in
-  match phase1 with
+  match phase1 ch s l req with
   | Some r => (Some r, s)
   | None =>
       let bc := n_bcast c b in
@@ -327,15 +335,19 @@ Definition freeLeases (now : Z) (t : list lease) : list lease :=
 (* ---------------------------------------------------------------- *)
 (* discover.go *)
 
+(* the switch on lease.State: which previous offer is kept *)
+Definition discover_reset (now : Z) (l : lease) (m : dmsg) : lease :=
+  match l_state l with
+  | SAllocated => set_offer l (if (l_exp l <? now)%Z then None else l_ip l)
+  | SDiscover => if oeqb (l_xid l) (Some (m_xid m)) then l else set_offer l None
+  | SFree => l
+  end.
+
 Definition handleDiscover (c : cfg) (ch : ip -> nat) (now : Z) (s : dstate) (m : dmsg)
   : dstate * option reply :=
   let k := getcid m in
   let '(s1, l) := findOrCreate c s k (m_chaddr m) in
-  let l1 := match l_state l with
-            | SAllocated => set_offer l (if (l_exp l <? now)%Z then None else l_ip l)
-            | SDiscover => if oeqb (l_xid l) (Some (m_xid m)) then l else set_offer l None
-            | SFree => l
-            end in
+  let l1 := discover_reset now l m in
   let s1' := put s1 l1 in
   let '(off, s2) := match l_offer l1 with
                     | Some x => (Some x, s1')
